@@ -324,12 +324,13 @@ var specs = map[string]*CheckSpec{
 		MaxPaths:    func(tier string) int { return 200000 },
 	},
 	"C09": {
-		ID: "C09", Patterns: []string{cmdPkg}, NeedHelper: true,
-		Runs:   []HarnessRun{commandRun("ZZ_C09", countShapes(cmdPkg, "ZZ_C09N"), harnessDesc(cmdPkg, "ZZ_C09Desc", "postings (source destination asset):"), []int{1, 40, 545})},
+		ID: "C09", Patterns: []string{cmdPkg, v2Pkg}, NeedHelper: true,
+		Runs: []HarnessRun{commandRun("ZZ_C09", countShapes(cmdPkg, "ZZ_C09N"), harnessDesc(cmdPkg, "ZZ_C09Desc", "postings (source destination asset):"), []int{1, 40, 545}),
+			{Pkg: v2Pkg, Dir: "internal/api/v2", Mod: "ledger", Fn: "ZZ_C09Bulk", Shapes: rangeShapes(2), Cfg: cmdCfg, Desc: harnessDesc(v2Pkg, "ZZ_C09BulkDesc", ""), CanaryShapes: []int{0}}},
 		Bounds: func(tier string) map[string]any {
-			return map[string]any{"postings": "1 posting: all 32 (source,destination,asset) combinations over {world,a,b,c}x{USD/2,EUR}; 2 postings: all 512 combinations with the first over USD/2; 3 postings: 8 chain/repeat/fan patterns", "amounts_and_balances": "unbounded integers (SMT Int), equal/unequal amounts decided by forking on the de-duplication map", "outside": "the HTTP handlers (JSON text cannot carry a symbolic amount); the claim starts at Postings.Validate/TxToScriptData"}
+			return map[string]any{"postings": "1 posting: all 32 (source,destination,asset) combinations over {world,a,b,c}x{USD/2,EUR}; 2 postings: all 512 combinations with the first over USD/2; 3 postings: 8 chain/repeat/fan patterns", "amounts_and_balances": "unbounded integers (SMT Int), equal/unequal amounts decided by forking on the de-duplication map", "bulk": "bulks of 2..3 posting-mode elements through v2.ProcessBulk: amounts symbolic (decimal text of an SMT Int in the JSON body), presence of metadata (absent / one entry / empty), reference and timestamp arbitrary per element", "outside": "the single-transaction HTTP handlers of v1/v2 (request plumbing); the claim starts at ProcessBulk for bulks and at Postings.Validate/TxToScriptData otherwise"}
 		},
-		Assumptions: cmdStubs, Encoded: append([]string{"ledger.Postings.Validate"}, cmdEncoded...),
+		Assumptions: append([]string{"ZZ_C09Bulk: backend.Ledger is a stub recording the RunScript each CreateTransaction call receives"}, cmdStubs...), Encoded: append([]string{"ledger.Postings.Validate", "v2.ProcessBulk", "ledger.(*TransactionRequest).ToRunScript", "ledger.TxToScriptData"}, cmdEncoded...),
 		Rule: "one job per posting pattern; amounts and opening balances symbolic; committed transaction and persisted log compared posting by posting with the request; acceptance compared with the in-order coverage reading",
 	},
 	"C10": {
@@ -347,7 +348,7 @@ var specs = map[string]*CheckSpec{
 		ID: "C13", Patterns: []string{cmdPkg}, NeedHelper: true,
 		Runs:   []HarnessRun{commandRun("ZZ_C13", countShapes(cmdPkg, "ZZ_C13N"), harnessDesc(cmdPkg, "ZZ_C13Desc", ""), []int{0, 3})},
 		Bounds: func(tier string) map[string]any {
-			return map[string]any{"log_kinds": "every write kind x target type the commander can emit (7)", "ids_amounts": "symbolic (transaction ids < 2^62), plus three concrete ids above 2^53 (not representable as float64)", "timestamps_metadata": "concrete (RFC3339Nano formatting of arbitrary instants and arbitrary Unicode metadata are outside the claim)"}
+			return map[string]any{"log_kinds": "every write kind x target type the commander can emit (7)", "ids_amounts": "symbolic (transaction ids < 2^62), plus three concrete ids above 2^53 (not representable as float64)", "metadata": "one entry, nil, empty, two entries with an empty value (arbitrary Unicode keys/values are outside the claim)", "timestamps": "concrete (RFC3339Nano formatting of arbitrary instants is outside the claim)"}
 		},
 		Assumptions: cmdStubs, Encoded: append([]string{"ledger.HydrateLog", "ledger.(*ChainedLog).UnmarshalJSON", "ledger.(*SetMetadataLogPayload).UnmarshalJSON", "ledger.LogType.MarshalJSON/UnmarshalJSON", "ledger.LogTypeFromString", "ledger.Time.MarshalJSON/UnmarshalJSON"}, cmdEncoded...),
 		Rule: "each log the write path persists is encoded, decoded, re-encoded (text equality as ropes) and its hash recomputed from the round-tripped entry and the predecessor",
